@@ -16,19 +16,35 @@ class Stalled(Exception):
 
 
 class ScheduleRaw(io.RawIOBase):
-    def __init__(self, data: bytes, schedule=(), default: int | None = None) -> None:
+    def __init__(self, data: bytes, schedule=(), default: int | None = None,
+                 seekable: bool = False) -> None:
         super().__init__()
         self.data = data
         self.pos = 0
         self.schedule = list(schedule)
         self.default = default  # None = as many bytes as requested
         self.calls: list[tuple[int, int]] = []  # (requested, returned)
+        self._seekable = seekable
 
     def readable(self) -> bool:
         return True
 
     def seekable(self) -> bool:
-        return False
+        return self._seekable
+
+    def seek(self, off: int, whence: int = 0) -> int:
+        if not self._seekable:
+            raise io.UnsupportedOperation("seek")
+        if whence == 0:
+            self.pos = off
+        elif whence == 1:
+            self.pos += off
+        else:
+            self.pos = len(self.data) + off
+        return self.pos
+
+    def tell(self) -> int:
+        return self.pos
 
     def readinto(self, b) -> int:
         want = len(b)
@@ -94,3 +110,48 @@ class CutRaw(ScheduleRaw):
 
     def __init__(self, data: bytes, cut: int, default: int | None = None) -> None:
         super().__init__(data[:cut], (), default)
+
+
+class NullRawWriter(io.RawIOBase):
+    """Write side of a BufferedRWPair (the shape of socket.makefile('rwb'))."""
+
+    def writable(self) -> bool:
+        return True
+
+    def write(self, b) -> int:
+        return len(b)
+
+
+class PlainBuffered(io.BufferedIOBase):
+    """A minimal custom BufferedIOBase (not a BufferedReader), e.g. an HTTP body wrapper:
+    read(n) blocks until n bytes or EOF, like every BufferedIOBase."""
+
+    def __init__(self, raw) -> None:
+        self.raw_src = raw
+
+    def readable(self) -> bool:
+        return True
+
+    def seekable(self) -> bool:
+        return False
+
+    def read(self, size=-1):
+        out = bytearray()
+        while size is None or size < 0 or len(out) < size:
+            want = 8192 if (size is None or size < 0) else size - len(out)
+            buf = bytearray(want)
+            n = self.raw_src.readinto(buf)
+            if not n:
+                break
+            out += buf[:n]
+        return bytes(out)
+
+    def read1(self, size=-1):
+        buf = bytearray(size if size and size > 0 else 8192)
+        n = self.raw_src.readinto(buf)
+        return bytes(buf[: n or 0])
+
+    def readinto(self, b) -> int:
+        data = self.read(len(b))
+        b[: len(data)] = data
+        return len(data)
